@@ -3,10 +3,12 @@ from .. import protocol, pipeline
 
 ID = 'C01'
 MODULES = ['OFModel.Zmq.Receiver', 'OFModel.Gen.Facts']
+PROP_FILES = ['C01', 'C03JoinMulti']     # per-source completeness ('exactly the subscribed topics published under that id, never a subset') is C03_join_complete_multi
 RULE = ('adversarial wire feeds of a real ZMQReceiver: 1-3 sources x {sync, ?, ??} x {all topics, explicit+remap, *} x {well-formed increasing ids with '
         'skips, arbitrary ids with duplicates/stale/restarts/loss/specials}; random interleaving (FIFO per source) and a recv(timeout=0) call after '
         'random prefixes, so every call boundary is a time-out; random poll order; state = None or the MQ discipline.  non-trivial = at least one set returned')
-ASSUMPTIONS = ['a `state` above the receiver\'s own expected id is passed only while no partial set is buffered (what MQ.recv/MQ.send do); stated as Adm in the theorem',
+ASSUMPTIONS = ['per-source completeness (C03_join_complete_multi) is proved for loss-free FIFO block streams into a non-balanced receiver with synchronised sources; under loss / adversarial input the single-id invariant (C01_inv_reachable) and buffer-level completeness (C05_sets_complete) are what is proved, completeness against what was published is then checked by the oracle',
+               'a `state` above the receiver\'s own expected id is passed only while no partial set is buffered (what MQ.recv/MQ.send do); stated as Adm in the theorem',
                'topic names are non-empty', 'libzmq is replaced by an in-process fake: FIFO per connection, PUB/SUB prefix filtering (harness/ofverif/fakezmq.py)']
 TRUSTED = ['poll-granular transcription of ZMQReceiver (lean/OFModel/Zmq/Receiver.lean); compared call-by-call (requests, returned sets, ids, balanced flag) with the real class']
 
